@@ -344,3 +344,81 @@ func rxExcludesNewline(re *syntax.Regexp) bool {
 	walk(re)
 	return found
 }
+
+// prefixLangOf: v reads element 1 of a FindStringSubmatch result of the tokeniser expressions: the finite set of
+// texts that group can hold (union over the expressions that may have produced the result); nil when unknown.
+func prefixLangOf(w *World, v ssa.Value) map[string]bool {
+	u, ok := v.(*ssa.UnOp)
+	if !ok || u.Op != token.MUL {
+		return nil
+	}
+	ia, ok := u.X.(*ssa.IndexAddr)
+	if !ok {
+		return nil
+	}
+	if k, ok := constInt(ia.Index); !ok || k != 1 {
+		return nil
+	}
+	gs := submatchRegexes(w, ia.X, map[ssa.Value]bool{})
+	if len(gs) == 0 {
+		return nil
+	}
+	byGlobal := map[*ssa.Global]*syntax.Regexp{}
+	for _, ri := range w.regexConstants() {
+		if ri.Global != nil && ri.Err == nil {
+			byGlobal[ri.Global] = ri.Re
+		}
+	}
+	out := map[string]bool{}
+	for _, g := range gs {
+		re := byGlobal[g]
+		if re == nil {
+			return nil
+		}
+		groups := rxGroups(re)
+		if len(groups) < 2 {
+			return nil
+		}
+		lang, ok := rxFiniteLang(groups[1], 8)
+		if !ok {
+			return nil
+		}
+		for _, s := range lang {
+			out[s] = true
+		}
+	}
+	return out
+}
+
+// prefixesLeft: the members of the prefix group's language that the facts (comparisons of that group with constants) allow.
+func prefixesLeft(w *World, facts []Fact) (left map[string]bool, known bool) {
+	for _, f := range facts {
+		if f.Y == nil || (f.Op != token.EQL && f.Op != token.NEQ) {
+			continue
+		}
+		x, y := f.X, f.Y
+		if _, isC := constString(x); isC {
+			x, y = y, x
+		}
+		c, ok := constString(y)
+		if !ok {
+			continue
+		}
+		lang := prefixLangOf(w, x)
+		if lang == nil {
+			continue
+		}
+		if left == nil {
+			left = map[string]bool{}
+			for s := range lang {
+				left[s] = true
+			}
+		}
+		for s := range left {
+			if (f.Op == token.EQL) != (s == c) {
+				delete(left, s)
+			}
+		}
+	}
+	return left, left != nil
+}
